@@ -250,7 +250,7 @@ def run(ctx, report):
                             q_ = ev_.split(',')
                             if q_[0] == 'A' and q_[3] == 'F':
                                 cur_ = int(q_[2])
-                            elif q_[0] == 'E' and cur_ == 3 and q_[1] == '8':
+                            elif q_[0] == 'E' and cur_ == 3 and q_[1] in ('8', '9'):      # invalid date (8) / invalid time (9)
                                 code8 = True
                         report.count('dtp-format-judged')
                         if code8 == fits_:
@@ -285,7 +285,13 @@ def fits_format(fmt, v):
     if fmt == 'TM':
         return _time(v)
     if fmt == 'DT':
-        return len(v) == 12 and _date8(v[:8]) and _time(v[8:])
+        # the validator reads the qualifier DT as its data type DT, which C13 defines: a date of 8 digits, of 6 digits (century
+        # window: left to the implementation), or a date plus HHMM
+        if len(v) == 6:
+            return None
+        if len(v) == 8:
+            return _date8(v)
+        return len(v) == 12 and v.isdigit() and _date8(v[:8]) and v[8:10] <= '23' and v[10:12] <= '59'
     return None
 
 
